@@ -657,11 +657,157 @@ def rule_eq5(prog):
     return r
 
 
+# -- R-EQ-6: the comparison key is not memoised in a mutable node ---------------
+
+def _self_closure(prog, classes, roots):
+    """functions run on the same object by the given methods: self.m(..)
+    calls and str(self) / repr(self) / format(self), resolved on every
+    formula class (the receiver may be any of them)"""
+    import ast
+    seen = {}
+    work = list(roots)
+    while work:
+        f = work.pop()
+        if id(f.node) in seen or not f.node.args.args:
+            continue
+        seen[id(f.node)] = f
+        me = f.node.args.args[0].arg
+        names = set()
+        for n in ast.walk(f.node):
+            if not isinstance(n, ast.Call):
+                continue
+            fn = n.func
+            if isinstance(fn, ast.Attribute) and \
+                    isinstance(fn.value, ast.Name) and fn.value.id == me:
+                names.add(fn.attr)
+            elif isinstance(fn, ast.Name) and fn.id in ('str', 'repr',
+                                                        'format') and \
+                    n.args and isinstance(n.args[0], ast.Name) and \
+                    n.args[0].id == me:
+                names.add('__%s__' % fn.id)
+            elif isinstance(fn, ast.Attribute) and fn.attr == 'format' and \
+                    any(isinstance(a, ast.Name) and a.id == me
+                        for a in n.args):
+                names.add('__str__')
+        for nm in names:
+            for c in classes:
+                g = prog.method(c, nm)
+                if g is not None and id(g.node) not in seen:
+                    work.append(g)
+    return list(seen.values())
+
+
+def _memo_returns(funcs):
+    """(attributes stored on self by the functions, first (function, load
+    node, (storing function, store node)) where one of them returns such an
+    attribute | None)"""
+    import ast
+    stored = {}
+    for f in funcs:
+        me = f.node.args.args[0].arg
+        for n in ast.walk(f.node):
+            if isinstance(n, ast.Attribute) and \
+                    isinstance(n.ctx, ast.Store) and \
+                    isinstance(n.value, ast.Name) and n.value.id == me:
+                stored.setdefault(n.attr, (f, n))
+    bad = None
+    for f in funcs:
+        me = f.node.args.args[0].arg
+        for n in ast.walk(f.node):
+            if isinstance(n, ast.Return) and n.value is not None:
+                for a in ast.walk(n.value):
+                    if isinstance(a, ast.Attribute) and a.attr in stored and \
+                            isinstance(a.ctx, ast.Load) and \
+                            isinstance(a.value, ast.Name) and \
+                            a.value.id == me and bad is None:
+                        bad = (f, a, stored[a.attr])
+    return stored, bad
+
+
+def rule_eq6(prog):
+    r = RuleResult('R-EQ-6', 'the key of == / hash is computed from the '
+                   'current tree: the comparison methods (and what they run '
+                   'on self) return nothing they stored in the node, nodes '
+                   'being mutable after construction')
+    import ast
+    from .. import fields
+    base = prog.cls('language.Formula')
+    classes = sorted([c for c in prog.classes.values()
+                      if c.is_subclass_of(base)], key=lambda c: c.qn)
+    roots = []
+    for c in classes:
+        for nm in ('__eq__', '__ne__', '__hash__'):
+            f = prog.method(c, nm)
+            if f is not None and f not in roots:
+                roots.append(f)
+    clo = _self_closure(prog, classes, roots)
+    # nodes can change after construction: a public method assigns the
+    # children field of an existing object
+    sub = fields.subformula_field(prog)
+    mutators = []
+    for c in classes:
+        for nm, fn in c.attrs.items():
+            if isinstance(fn, ast.FunctionDef) and not nm.startswith('_') \
+                    and fn.args.args:
+                me = fn.args.args[0].arg
+                for n in ast.walk(fn):
+                    if isinstance(n, ast.Attribute) and n.attr == sub and \
+                            isinstance(n.ctx, ast.Store) and \
+                            isinstance(n.value, ast.Name) and \
+                            n.value.id == me:
+                        mutators.append('%s.%s' % (c.short(), nm))
+                        break
+    stored, bad = _memo_returns(clo)
+    r.inst(comparison_methods=sorted(f.short() for f in roots),
+           run_on_self=len(clo), attributes_stored=sorted(stored),
+           public_mutators=sorted(set(mutators))[:6])
+    floor('R-EQ-6', 'functions run by the comparison methods', len(clo), 10)
+    # matcher self-test (the expected number of findings is zero)
+
+    class _F(object):
+        def __init__(self, src):
+            self.node = ast.parse(src).body[0]
+    pos = [_F('def k(self):\n'
+              '    try:\n'
+              '        return self._c\n'
+              '    except AttributeError:\n'
+              '        self._c = str(self)\n'
+              '    return self._c\n')]
+    neg = [_F('def k(self):\n'
+              '    t = str(self)\n'
+              '    return t + self.name\n'),
+           _F('def s(self, v):\n'
+              '    self.seen = v\n')]
+    if _memo_returns(pos)[1] is None or _memo_returns(neg)[1] is not None:
+        raise Inconclusive('R-EQ-6', 'matcher self-test failed', '')
+    r.notes.append('matcher self-test: positive example reported, negative '
+                   'example silent')
+    if bad is None:
+        r.ok()
+        return r
+    if not mutators:
+        raise Inconclusive('R-EQ-6', 'a comparison key is stored in the node '
+                           'and no public method that re-assigns the '
+                           'children was found', bad[0].where())
+    f, a, (g, st) = bad
+    r.fail(Finding(
+        PROP, 'R-EQ-6', '%s:%d' % (g.module.relpath, st.lineno), g.short(),
+        'memoised-key:%s' % a.attr,
+        '%s stores self.%s while == / hash are being computed and %s returns '
+        'it: the key of a node is remembered, but nodes change after '
+        'construction (%s) and a node cannot tell its ancestors, so a formula '
+        'keeps comparing / hashing as the tree it had when first compared' % (
+            g.short(), a.attr, f.short(), mutators[0]),
+        expected='== / hash computed from the current tree',
+        found='value stored in the node'), witness=a.attr)
+    return r
+
+
 def run(prog, tier, seed):
     T = Attempts()
     r3 = T(c09.rule_rt4, prog, PROP, 'R-EQ-3')
     results = T.results(T(rule_eq1, prog), T(rule_eq2, prog), r3,
-                        T(rule_eq5, prog))
+                        T(rule_eq5, prog), T(rule_eq6, prog))
     expl = ('For every class of the formula lattice the MRO-resolved __eq__ '
             'and __hash__ are interpreted abstractly: both exist (no class '
             'defines __eq__ without __hash__ at or below it), equality is '
